@@ -511,6 +511,44 @@ func splitKind(kind string) (string, string) {
 	return kind[:i], kind[i+1:]
 }
 
+// Relist changes the configured directory list itself (the files stay): a
+// permutation, possibly with one entry dropped or one repeated at the end. The
+// configured entry of physical directory keep (if >= 0) is never dropped.
+func (p *Pop) Relist(r *rand.Rand, keep int) string {
+	n := len(p.Conf)
+	perm := r.Perm(n)
+	if n > 1 && r.Intn(3) == 0 {
+		// a rotation or a swap of two entries: the most "nothing changed" looking ones
+		perm = make([]int, n)
+		for i := range perm {
+			perm[i] = i
+		}
+		i, j := r.Intn(n), r.Intn(n)
+		perm[i], perm[j] = perm[j], perm[i]
+	}
+	conf, phys := make([]string, 0, n+1), make([]int, 0, n+1)
+	for _, i := range perm {
+		conf, phys = append(conf, p.Conf[i]), append(phys, p.ConfPhys[i])
+	}
+	what := "permuted"
+	switch r.Intn(6) {
+	case 0:
+		if len(conf) > 1 {
+			k := r.Intn(len(conf))
+			if phys[k] != keep {
+				conf, phys = append(conf[:k:k], conf[k+1:]...), append(phys[:k:k], phys[k+1:]...)
+				what = "permuted, one entry dropped"
+			}
+		}
+	case 1:
+		k := r.Intn(len(conf))
+		conf, phys = append(conf, conf[k]), append(phys, phys[k])
+		what = "permuted, one entry repeated at the end"
+	}
+	p.Conf, p.ConfPhys = conf, phys
+	return fmt.Sprintf("reconfigure (%s): %v", what, conf)
+}
+
 func (p *Pop) Describe() map[string]any {
 	files := map[string]string{}
 	for _, f := range p.Files {
